@@ -317,8 +317,12 @@ class C04(PropCheck):
             for o, i, l in combos:
                 if ends_in_greenback(o, i, l):
                     continue
-                st = stackscope.extract(StackSlice(outer=None if o is None else full[o], inner=None if i is None else full[i], limit=l),
-                                        with_contexts=False)
+                if len(res) % 2:
+                    # the documented positional order: outer, inner, limit
+                    sl = StackSlice(None if o is None else full[o], None if i is None else full[i], l)
+                else:
+                    sl = StackSlice(outer=None if o is None else full[o], inner=None if i is None else full[i], limit=l)
+                st = stackscope.extract(sl, with_contexts=False)
                 s, fr = show(st)
                 res.append(s)
                 qlist.append({"outer": o, "inner": i, "limit": l})
